@@ -167,10 +167,13 @@ fn recorder_history(limit: usize, ops: &[usize], states: &mut BTreeSet<Model>) -
 // ---------------------------------------------------------------------------------------------
 // part 2: merge in the reporter
 
-fn merge_events() -> Vec<String> {
+/// The three recording operations of a merge exploration; every kind is in one of the sets.
+const MERGE_OP_SETS: [[usize; 3]; 3] = [[1, 6, 2], [3, 4, 5], [0, 7, 3]];
+
+fn merge_events_for(ops: [usize; 3]) -> Vec<String> {
     let mut v = vec![];
     for w in 0..2 {
-        for op in [1usize, 6, 2] {
+        for op in ops {
             for a in 0..2 {
                 v.push(format!("rec:w{}:{}:a{}", w, KINDS[op], a));
             }
@@ -182,6 +185,10 @@ fn merge_events() -> Vec<String> {
     v
 }
 
+fn merge_events() -> Vec<String> {
+    merge_events_for(MERGE_OP_SETS[0])
+}
+
 struct MergeRig {
     workers: Vec<PerClientStats>,
     queue: Arc<StatsQueue>,
@@ -189,12 +196,17 @@ struct MergeRig {
     // model
     mq: VecDeque<Vec<(usize, Row)>>,
     expect: BTreeMap<usize, Row>,
+    ops: [usize; 3],
 }
 
 impl MergeRig {
     fn new() -> MergeRig {
+        MergeRig::with_ops(MERGE_OP_SETS[0])
+    }
+    fn with_ops(ops: [usize; 3]) -> MergeRig {
         let queue = Arc::new(StatsQueue::new(4)); // as in the binary: 2 x workers
         MergeRig {
+            ops,
             workers: vec![PerClientStats::verif_with_limit(1000), PerClientStats::verif_with_limit(1000)],
             reporter: Reporter::new(queue.clone(), &Duration::from_secs(3600), None),
             queue,
@@ -206,7 +218,7 @@ impl MergeRig {
     fn apply(&mut self, e: usize) -> Option<(String, String)> {
         if e < 12 {
             let w = e / 6;
-            let op = [1usize, 6, 2][(e % 6) / 2];
+            let op = self.ops[(e % 6) / 2];
             let a = e % 2;
             apply(&mut self.workers[w], op, a);
             None
@@ -379,16 +391,16 @@ pub fn run(ctx: &Ctx) -> Result<(), String> {
     let rec_states = all_states.lock().unwrap().len();
 
     // part 2: merge, all sequences of length <= L over 15 events
-    let evs = merge_events();
     let len2 = ctx.tier.pick(4usize, 5);
     let merge_n = AtomicU64::new(0);
-    {
+    for ops in MERGE_OP_SETS {
+        let evs = merge_events_for(ops);
         let n = 15usize.pow(len2 as u32);
         // every sequence of exactly len2 events followed by a final `receive` (shorter sequences are prefixes)
         let nchunks = (n + 2047) / 2048;
         par_for(nchunks, 1, |ch, _| {
             // one long-lived rig per chunk: the reporter has no reset, the model is cumulative
-            let mut rig = MergeRig::new();
+            let mut rig = MergeRig::with_ops(ops);
             for idx0 in ch * 2048..((ch + 1) * 2048).min(n) {
                 let mut idx = idx0;
                 let mut seq = Vec::with_capacity(len2 + 1);
@@ -418,8 +430,8 @@ pub fn run(ctx: &Ctx) -> Result<(), String> {
                     rig.workers[w].clear();
                 }
                 if let Some((clause, msg)) = bad {
-                    ctx.violation(&clause, "reporter", "merge", json!({"kind":"merge","events":seq.iter().map(|&e| evs[e].clone()).collect::<Vec<_>>(),"chunk":ch,"message":msg}));
-                    rig = MergeRig::new();
+                    ctx.violation(&clause, "reporter", "merge", json!({"kind":"merge","ops":ops,"events":seq.iter().map(|&e| evs[e].clone()).collect::<Vec<_>>(),"chunk":ch,"message":msg}));
+                    rig = MergeRig::with_ops(ops);
                 }
             }
         });
@@ -587,7 +599,7 @@ pub fn run(ctx: &Ctx) -> Result<(), String> {
     ctx.cov("sampled_evaluations", json!(sampled));
     ctx.cov("exhaustive", json!(true));
     ctx.cov("bound", json!({"recorder_len": len1, "recorder_ops": 25, "limits": [1, 2], "merge_len": len2, "merge_events": 15, "wiring_depth": ctx.tier.pick("4 (aggregated) / 3 (per-client)", "5 / 4")}));
-    ctx.cov("rule", json!(format!("(1) all sequences of length <= {} over 8 recording operations x 3 addresses + clear on the real PerClientStats (limit 1 and 2) and AggregatedStats, with a step oracle after every operation: the observable state (per-address counters, bytes, overflow count) changed by exactly the event's own counter +1 (bytes + argument) OR overflow +1; tracked <= limit; every getter equals the sum over rows; iter() == rows; aggregated totals equal per-client totals while overflow is 0. states = distinct canonical recorder states reached. (2) all sequences of {} events over {{record(w,op,addr) x12, snapshot(w0), snapshot(w1), receive}} + final receive through the real iter->force_push->clear hand-off, the real ArrayQueue (capacity 4) and the real Reporter::receive_client_stats, against a model queue that drops the oldest snapshot when full: reporter per-address sums == sums of popped snapshots. (3) C09 event histories extended with the periodic hand-off event on real Servers (aggregated and per-client recorder): recorded valid/classic/ietf/invalid/responses/bytes == datagrams actually sent and received (histories without hand-off; batch_size 1 and 3, and 3 with fault_percentage 50, where deliberately invalid replies differ in length); every hand-off returns even when the undrained queue is full (wedge watchdog), traffic still served. (4) the real Responder driven through its public API: every sequence (length <= 3, thorough 4) of return addresses over {{two receiving sockets, addresses send_to fails for (IPv6 on an IPv4 socket, port 0, broadcast)}} as one batch and then reversed as a second batch, both protocols, both recorders: responses / bytes recorded == datagrams / bytes that arrived, failed send attempts == unsendable addresses, after each batch.", len1, len2)));
+    ctx.cov("rule", json!(format!("(1) all sequences of length <= {} over 8 recording operations x 3 addresses + clear on the real PerClientStats (limit 1 and 2) and AggregatedStats, with a step oracle after every operation: the observable state (per-address counters, bytes, overflow count) changed by exactly the event's own counter +1 (bytes + argument) OR overflow +1; tracked <= limit; every getter equals the sum over rows; iter() == rows; aggregated totals equal per-client totals while overflow is 0. states = distinct canonical recorder states reached. (2) all sequences of {} events over {{record(w,op,addr) x12, snapshot(w0), snapshot(w1), receive}} (three explorations whose operation triples together hold all 8 recording kinds) + final receive through the real iter->force_push->clear hand-off, the real ArrayQueue (capacity 4) and the real Reporter::receive_client_stats, against a model queue that drops the oldest snapshot when full: reporter per-address sums == sums of popped snapshots. (3) C09 event histories extended with the periodic hand-off event on real Servers (aggregated and per-client recorder): recorded valid/classic/ietf/invalid/responses/bytes == datagrams actually sent and received (histories without hand-off; batch_size 1 and 3, and 3 with fault_percentage 50, where deliberately invalid replies differ in length); every hand-off returns even when the undrained queue is full (wedge watchdog), traffic still served. (4) the real Responder driven through its public API: every sequence (length <= 3, thorough 4) of return addresses over {{two receiving sockets, addresses send_to fails for (IPv6 on an IPv4 socket, port 0, broadcast)}} as one batch and then reversed as a second batch, both protocols, both recorders: responses / bytes recorded == datagrams / bytes that arrived, failed send attempts == unsendable addresses, after each batch.", len1, len2)));
     ctx.sample(json!({"kind":"recorder","limit":1,"names":["classic_req@a0","rfc_resp@a1","clear","health@a1"]}));
     ctx.sample(json!({"kind":"merge","events":["rec:w0:classic_req:a0","snap:w0","rec:w1:classic_req:a0","snap:w1","receive"]}));
     ctx.assume("part 2 reuses one Reporter per chunk of histories (Reporter::new allocates a 5M-entry map); the model is cumulative, so the oracle stays exact");
@@ -605,9 +617,13 @@ pub fn replay_case(c: &Value) -> Result<Option<String>, String> {
             Ok(recorder_history(limit, &ops, &mut st).map(|(a, b)| format!("{} {}", a, b)))
         }
         Some("merge") => {
-            let evs = merge_events();
+            let ops: [usize; 3] = match c["ops"].as_array() {
+                Some(a) if a.len() == 3 => [a[0].as_u64().unwrap_or(1) as usize, a[1].as_u64().unwrap_or(6) as usize, a[2].as_u64().unwrap_or(2) as usize],
+                _ => MERGE_OP_SETS[0],
+            };
+            let evs = merge_events_for(ops);
             let seq: Vec<usize> = c["events"].as_array().ok_or("events")?.iter().filter_map(|e| evs.iter().position(|x| Some(x.as_str()) == e.as_str())).collect();
-            let mut rig = MergeRig::new();
+            let mut rig = MergeRig::with_ops(ops);
             for e in seq {
                 if let Some((a, b)) = rig.apply(e) {
                     return Ok(Some(format!("{} {}", a, b)));
